@@ -6,6 +6,8 @@
 #   - builds the property crate (release unless PROFILE=chk) and runs it (quick tier by default).
 # cleanup: tools/mutant_run.sh --clean <name>
 set -e
+# VERIF_SRC: take the harness sources from another checkout of /verif (e.g. a worktree of an older commit)
+src=${VERIF_SRC:-/verif}
 if [ "$1" = "--clean" ]; then
   git -C /repo worktree remove --force /tmp/mw/$2/repo 2>/dev/null || true
   rm -rf /tmp/mw/$2
@@ -22,8 +24,8 @@ if [ ! -d $base/repo ]; then
 fi
 rm -rf $base/harness
 mkdir -p $base/harness
-cp -r /verif/harness/Cargo.toml /verif/harness/Cargo.lock /verif/harness/vmodel /verif/harness/props /verif/harness/mc01 $base/harness/
-rm -rf $base/harness-ct; mkdir -p $base/harness-ct; cp -r /verif/harness-ct/ctwrap /verif/harness-ct/c01 /verif/harness-ct/Cargo.toml /verif/harness-ct/Cargo.lock $base/harness-ct/
+cp -r $src/harness/Cargo.toml $src/harness/Cargo.lock $src/harness/vmodel $src/harness/props $src/harness/mc01 $base/harness/
+rm -rf $base/harness-ct; mkdir -p $base/harness-ct; cp -r $src/harness-ct/ctwrap $src/harness-ct/c01 $src/harness-ct/Cargo.toml $src/harness-ct/Cargo.lock $base/harness-ct/
 sed -i "s#path = \"/repo\"#path = \"$base/repo\"#" $base/harness-ct/Cargo.toml
 mkdir -p $base/harness/.cargo
 printf '[net]\noffline = true\n[build]\ntarget-dir = "%s/target"\n' $base > $base/harness/.cargo/config.toml
@@ -38,6 +40,6 @@ else
 fi
 VERIF_ROOT=${VERIF_ROOT_OVERRIDE:-$base/vroot}
 mkdir -p $base/vroot
-cp /verif/known_findings.json $base/vroot/ 2>/dev/null || true
-[ -d /verif/regressions ] && cp -r /verif/regressions $base/vroot/ 2>/dev/null || true
-VERIF_ROOT=$base/vroot $bin "$@"
+cp $src/known_findings.json $base/vroot/ 2>/dev/null || true
+[ -d $src/regressions ] && cp -r $src/regressions $base/vroot/ 2>/dev/null || true
+VERIF_REPO=$base/repo VERIF_ROOT=$base/vroot $bin "$@"
